@@ -22,7 +22,8 @@ fn through_bundle(input: &str) -> Vec<String> {
         input
     );
     // a panic inside the parser is C01's business (finding F1), not an observation of the decoder
-    let mk = |with_transform: bool| -> Result<FluentBundle<FluentResource>, &'static str> {
+    let mk = |mode: u8| -> Result<FluentBundle<FluentResource>, &'static str> {
+        let with_transform = mode == 1;
         let res = match panic::catch_unwind(|| FluentResource::try_new(src.clone())) {
             Ok(Ok(r)) => r,
             Ok(Err(_)) => return Err("na"),
@@ -32,6 +33,14 @@ fn through_bundle(input: &str) -> Vec<String> {
         bundle.set_use_isolating(false);
         if with_transform {
             bundle.set_transform(Some(|s: &str| -> Cow<str> { Cow::Owned(s.to_ascii_uppercase()) }));
+        }
+        if mode == 2 {
+            // a value FORMATTER that rewrites strings (e.g. a markup escaper for arguments): a string LITERAL written
+            // as a placeable is not a value that came from outside - it is decoded and written as it is
+            bundle.set_formatter(Some(|v: &FluentValue, _: &intl_memoizer::IntlLangMemoizer| match v {
+                FluentValue::String(s) => Some(format!("<{}>", s)),
+                _ => None,
+            }));
         }
         bundle
             .add_function("ID", |pos: &[FluentValue], _: &FluentArgs| match pos.first() {
@@ -50,9 +59,9 @@ fn through_bundle(input: &str) -> Vec<String> {
         }
         Ok(bundle)
     };
-    let (bundle, bundle_t) = match (mk(false), mk(true)) {
-        (Ok(a), Ok(b)) => (a, b),
-        (Err(e), _) | (_, Err(e)) => return na(e),
+    let (bundle, bundle_t, bundle_f) = match (mk(0), mk(1), mk(2)) {
+        (Ok(a), Ok(b), Ok(c)) => (a, b, c),
+        (Err(e), _, _) | (_, Err(e), _) | (_, _, Err(e)) => return na(e),
     };
     let mut out = vec![];
     for id in ["m", "n", "k", "p", "q"] {
@@ -72,8 +81,21 @@ fn through_bundle(input: &str) -> Vec<String> {
                 let mut wt = String::new();
                 let mut e4 = vec![];
                 let _ = bundle_t.write_pattern(&mut wt, pt, None, &mut e4);
+                // m and q write the literal itself (n, k, p hand it to a function / a term as a VALUE, which a formatter sees)
+                let mut vf = v.clone();
+                let mut wf = v.clone();
+                if id == "m" || id == "q" {
+                    let pf = bundle_f.get_message(id).and_then(|m| m.value()).unwrap_or(p);
+                    let mut e5 = vec![];
+                    vf = bundle_f.format_pattern(pf, None, &mut e5).into_owned();
+                    wf = String::new();
+                    let mut e6 = vec![];
+                    let _ = bundle_f.write_pattern(&mut wf, pf, None, &mut e6);
+                }
                 if !errs.is_empty() {
                     format!("err{}", errs.len())
+                } else if vf != v || wf != v {
+                    format!("err-formatter-touches-literal:{}/{}", hex_enc(vf.as_bytes()), hex_enc(wf.as_bytes()))
                 } else if w != v || !errs_w.is_empty() {
                     format!("err-write_pattern-differs:{}", hex_enc(w.as_bytes()))
                 } else if vt != v || wt != v || !e3.is_empty() || !e4.is_empty() {
